@@ -6,6 +6,10 @@
 (* Query line carries the time since the last arrival and the suspicion    *)
 (* level the detector returned (times 10000, rounded).  The window         *)
 (* variables are bound from the line; hist is maintained from the calls.   *)
+(* The detector holds several peers; a trace is one peer's view of it:     *)
+(* "Remove" discards this peer's window, "QueryNew" asks for the level of  *)
+(* this peer while it has no window, and "Other" is any call that names    *)
+(* another peer, which must be a stuttering step of this peer's window.    *)
 (***************************************************************************)
 EXTENDS FailureDetector, Json, TLC
 
@@ -31,6 +35,11 @@ StepViolations(e) ==
   THEN (IF ~LevelExact(e) THEN {"PhiExact"} ELSE {})
        \cup (IF e.gap = 0 /\ e.level # 0 THEN {"ZeroAtArrival"} ELSE {})
        \cup (IF buf' # buf \/ index' # index \/ sum' # sum \/ isFull' # isFull THEN {"QueryIsPure"} ELSE {})
+  ELSE IF e.op = "QueryNew"
+  THEN (IF e.nan \/ e.level # 0 THEN {"ZeroAtArrival"} ELSE {})
+  ELSE IF e.op = "Other"
+  THEN (IF buf' # buf \/ index' # index \/ sum' # sum \/ isFull' # isFull \/ seen' # seen
+        THEN {"PeersAreIndependent"} ELSE {})
   ELSE {}
 
 TraceNext ==
@@ -45,9 +54,15 @@ TraceNext ==
         /\ seen' = e.seen
         /\ hist' = IF reset THEN <<>>
                    ELSE IF e.op = "Report" THEN Append(hist, IF seen THEN e.gap ELSE B)
+                   ELSE IF e.op = "QueryNew" THEN Append(hist, B)
+                   ELSE IF e.op = "Remove" THEN <<>>
                    ELSE hist
         /\ viol' = StepViolations(e)
-        /\ drift' = drift + (IF reset \/ e.op = "Query" \/ Report(e.gap) THEN 0 ELSE 1)
+        /\ drift' = drift + (IF \/ reset \/ e.op \in {"Query", "Other"}
+                                 \/ (e.op = "Report" /\ Report(e.gap))
+                                 \/ (e.op = "QueryNew" /\ FirstQuery)
+                                 \/ (e.op = "Remove" /\ (Remove \/ (~seen /\ UNCHANGED vars)))
+                              THEN 0 ELSE 1)
 
 TraceSpec == TraceInit /\ [][TraceNext]_tvars
 
